@@ -241,7 +241,7 @@ static void batch(int full, long first, long count, long total)
   }
   reproc_destroy(p);
   vk_obs("batch %ld+%ld results=%016llx invalid=%ld valid=%ld oor=%ld ambig=%ld", first, count, (unsigned long long) h, counts[V_INVALID], counts[V_VALID], counts[V_OOR], counts[V_AMBIG]);
-  hx_check_ledgers("C13", &before, 1);
+  hx_check_ledgers("C13", "h_c13", &before, 1);
   fclose(u_file);
   close(u_handle);
 }
